@@ -116,6 +116,10 @@ package headers
 // Whatever non-empty If-Range the client sent is kept: as a date when it is an HTTP-date, as an
 // opaque validator otherwise (an unknown form can only fail to match - the full 200 follows).
 //@   ensures [C07] in(header, "If-Range") && len(header["If-Range"][0]) > 0 ==> result.IfRange.value.some && (timeparse_ok(sid(header["If-Range"][0])) ==> result.IfRange.value.value.right.some && result.IfRange.value.value.right.value == timeparse_val(sid(header["If-Range"][0]))) && (!timeparse_ok(sid(header["If-Range"][0])) ==> result.IfRange.value.value.left.some && streq(result.IfRange.value.value.left.value, header["If-Range"][0]))
+// A Range is recorded only when it parsed (a unit of bytes and a range-spec); one that did not is
+// as if the client had sent none - the full answer follows, never some other slice.
+//@   loop 1 invariant [C07] hd.Range.value.some ==> in(header, "Range") && len(header["Range"][0]) >= 7 && header["Range"][0][0:6] == "bytes="
+//@   ensures [C07] result.Range.value.some ==> in(header, "Range") && len(header["Range"][0]) >= 7 && header["Range"][0][0:6] == "bytes="
 
 // A response may be stored unless Cache-Control forbids it (no-store, no-cache,
 // private, max-age below one second), Expires is in the past, or the request
@@ -128,14 +132,15 @@ package headers
 
 // Lifetime: the configured default when forced; else max-age; else Expires
 // (an unparseable date was stored as the zero time, i.e. long past); else the default.
-//@ props C16 C03
+// (also C04: with directives ignored every 200 GET response is stored with a usable lifetime)
+//@ props C16 C03 C04
 //@ func HeaderDirectives.GetExpiresOrDefault
 //@   pure
 //@   nopanic
 //@   ensures [C03] forceDefaultCacheMaxAge ==> result == now + defaultCacheMaxAge
 //@   ensures [C03] !forceDefaultCacheMaxAge && hd.CacheControl.value.some && hd.CacheControl.value.value.maxAge > 0 ==> result == now + hd.CacheControl.value.value.maxAge
-//@   ensures [C03] !forceDefaultCacheMaxAge && !(hd.CacheControl.value.some && hd.CacheControl.value.value.maxAge > 0) && hd.Expires.value.some ==> result == hd.Expires.value.value
-//@   ensures [C03] !forceDefaultCacheMaxAge && !(hd.CacheControl.value.some && hd.CacheControl.value.value.maxAge > 0) && !hd.Expires.value.some ==> result == now + defaultCacheMaxAge
+//@   ensures [C03,C04] !forceDefaultCacheMaxAge && !(hd.CacheControl.value.some && hd.CacheControl.value.value.maxAge > 0) && hd.Expires.value.some ==> result == hd.Expires.value.value
+//@   ensures [C03,C04] !forceDefaultCacheMaxAge && !(hd.CacheControl.value.some && hd.CacheControl.value.value.maxAge > 0) && !hd.Expires.value.some ==> result == now + defaultCacheMaxAge
 
 // (also C05: a client conditional left in place makes the shared fetch conditional - a 304 on a
 // cold key can be stored for nobody and every waiting client fetches for itself)
